@@ -149,7 +149,7 @@ func checkFixedSizeTable(c *core.Ctx, gr *genRun) {
 func init() { register("C04", checkC04) }
 
 func checkC04(c *core.Ctx) {
-	c.Explainf("C04 (decided clauses). R1: after a nested record is decoded from buf[at:], the cursor advance must be derived from the input (a consumed count or the length on the wire), never from Size() of the decoded value — a reader that knows fewer fields computes a smaller Size() than what was sent; checked on every emitted UnmarshalBebop/MustUnmarshalBebop of every explored shape by symbolic cursor simulation; the wire-derived advance is 4+len after a message and 5+len after a union. R2: the dispatch of every message/union decoder has a default arm that ends decoding without an error (byte path) or drains the bounded region, restores the base reader and returns the latch (stream path). R3: the stream path bounds the body with io.LimitedReader{R: <saved r.Reader>, N: int64(<prefix read>)[+1]}. R4: decoders keep arms for deprecated fields, encoders and Size() omit them. NOT decided: equality of the restricted value on the common fields.")
+	c.Explainf("C04 (decided clauses). R1: after a nested record is decoded from buf[at:], the cursor advance must be derived from the input (a consumed count or the length on the wire), never from Size() of the decoded value — a reader that knows fewer fields computes a smaller Size() than what was sent; checked on every emitted UnmarshalBebop/MustUnmarshalBebop of every explored shape by symbolic cursor simulation; the wire-derived advance is 4+len after a message and 5+len after a union. R2: the dispatch of every message/union decoder has a default arm that ends decoding without an error (byte path) or drains the bounded region, restores the base reader and returns the latch (stream path). R3: the stream path bounds the body with io.LimitedReader{R: <saved r.Reader>, N: int64(<prefix read>)[+1]}. R4: decoders keep arms for deprecated fields, encoders and Size() omit them. R6: the encoders write message fields in ascending index order (an older reader stops at the first unknown index). NOT decided: equality of the restricted value on the common fields.")
 	gr := startGen(c)
 	if gr == nil {
 		return
@@ -212,6 +212,35 @@ func checkC04(c *core.Ctx) {
 			}
 			c.Check("R2", "unknown index drains and returns the latch DecodeBebop "+frameKey(rf), anchorPos(gr.p, rf.Spec.Kind, mSR), hasDefault && gr.defaultDrains(rf),
 				"default arm of the stream dispatch must be r.Drain(); r.Reader = baseReader; return r.Err — "+rf.where(sr.Decl.Pos()))
+		}
+		// R6: an older reader stops at the first index it does not know, so every
+		// index it does know has to be on the wire before that one: the encoders
+		// write message fields in ascending index order
+		if rf.Spec.Kind == genfacts.ClsMessage {
+			for _, m := range []string{mBW, mSW} {
+				mf := rf.M[m]
+				if !mf.Present {
+					continue
+				}
+				var tags []int
+				var walk func(items []wire.Item)
+				walk = func(items []wire.Item) {
+					for _, it := range items {
+						if it.Kind == wire.KOpt && it.Tag >= 0 {
+							tags = append(tags, it.Tag)
+						}
+					}
+				}
+				walk(mf.Items)
+				asc := true
+				for i := 1; i < len(tags); i++ {
+					if tags[i] <= tags[i-1] {
+						asc = false
+					}
+				}
+				c.Check("R6", m+" writes fields in ascending index order "+frameKey(rf), anchorPos(gr.p, rf.Spec.Kind, m), asc,
+					fmt.Sprintf("indices are written in the order %v: a reader of an older schema version stops at the first index it does not know and loses the lower, known indices that follow — %s", tags, rf.where(mf.Decl.Pos())))
+			}
 		}
 		// R4: deprecated asymmetry
 		if rf.Spec.Kind == genfacts.ClsMessage {
